@@ -610,3 +610,74 @@ def validate_chains(traces, workdir, timeout=1500):
     m = re.search(r'<<"TRACES-CHECKED", (\d+), "rejected", (\d+)>>', log)
     rejected = re.findall(r'<<"TRACE-REJECTED", (\d+), (\d+), "([^"]*)", "(.*)">>', log)
     return r, (int(m.group(1)), int(m.group(2))) if m else None, rejected
+
+
+# ====================================================================== VirtualArray sessions (TraceVirtual.tla)
+def record_virtual_traces(worker, seed, ntraces, maxlen=40):
+    import virtual as vmod
+    rng = random.Random(seed)
+    ops = [{"op": "length"}, {"op": "type"}, {"op": "tojson"}, {"op": "at", "i": 0}, {"op": "at", "i": -1}, {"op": "range", "a": 1, "b": 3},
+           {"op": "range_lazy", "a": 0, "b": 2}, {"op": "num", "axis": 0}, {"op": "carry"}, {"op": "validity"}, {"op": "evict"}, {"op": "evict"}]
+    wcases, plans = [], []
+    for t in range(ntraces):
+        mode = rng.choice(["ok", "ok", "short", "wrongform", "raises", "raise_first", "bad_first"])
+        ln, fm = rng.randint(0, 1), rng.randint(0, 1)
+        if mode == "short":
+            ln = 1
+        if mode == "wrongform":
+            fm = 1
+        if mode == "bad_first":
+            ln, fm = 1, 0
+        cfg = {"cache": rng.choice(["none", "keep", "keep", "evict_always"]), "mode": mode, "len": ln, "form": fm}
+        eager = rng.choice(vmod.EAGERS)
+        n = {"ListOffset": lambda e: len(e["o"]) - 1, "Numpy": lambda e: len(e["d"]), "IndexedOption": lambda e: len(e["i"]),
+             "Record": lambda e: e["n"], "Regular": lambda e: len(e["x"]["d"]) // e["size"]}[eager["c"]](eager)
+        sched = [rng.choice(ops) for _ in range(rng.randint(5, maxlen))]
+        st = {"op": "virtual_run", "eager": eager, "mode": mode, "declare_length": ln, "declare_form": fm, "cache": cfg["cache"],
+              "schedule": [vmod._op(o, n) for o in sched]}
+        if mode == "wrongform":
+            st["alt"] = vmod.WRONG
+        if mode == "bad_first":
+            st["alt"] = {"c": "Numpy", "dt": "b", "d": [1]}
+        wcases.append({"id": t, "steps": [st]})
+        plans.append((cfg, sched))
+    answers, crashes = replay.run_worker(worker, wcases)
+    crashed = dict(crashes)
+    traces, problems = [], []
+    for t, (cfg, sched) in enumerate(plans):
+        if t in crashed:
+            problems.append(({"act": "virtual-trace", "worker_case": wcases[t]}, "CRASH: " + crashed[t]))
+            continue
+        res = answers[t]
+        if not res or res[0].get("ok") != 1:
+            problems.append(({"act": "virtual-trace", "worker_case": wcases[t]}, "harness: virtual_run failed: %r" % (res and (res[0].get("harness") or res[0].get("msg")))))
+            continue
+        events, prev = [], 0
+        for o, s in zip(sched, res[0]["steps"]):
+            v, e = s["virt"], s["eager"]
+            if v.get("ok") == -1:
+                problems.append(({"act": "virtual-trace", "worker_case": wcases[t]}, "harness: " + str(v.get("harness"))))
+                break
+            if o["op"] != "evict" and e.get("ok") != 1:
+                break                   # refused on the eager array too: not a question about laziness
+            events.append({"o": o, "same": 1 if (v.get("ok") == 1 and v == e) else 0, "raised": 0 if v.get("ok") == 1 else 1,
+                           "delta": s["calls"] - prev, "held": 1 if s.get("held", 0) else 0})
+            prev = s["calls"]
+        if events:
+            traces.append({"cfg": cfg, "events": events})
+    return traces, problems
+
+
+def validate_virtual_traces(trs, workdir, timeout=900):
+    os.makedirs(workdir, exist_ok=True)
+    tf = os.path.join(workdir, "virtual-traces.ndjson")
+    with open(tf, "w") as f:
+        for tr in trs:
+            f.write(json.dumps(tr) + "\n")
+    consts = dict(CacheKinds="{}", GenModes="{}", Decls="{}", Ops="{}", MaxSteps="100000", EmitOn="FALSE")
+    r = tlc.run_tlc("TraceVirtual", consts, workdir, init="TInit", next_="TNext", view=None, action_constraints=(), invariants=["TraceInv"],
+                    workers=1, timeout=timeout, coverage=False, env_extra={"TRACE_FILE": tf})
+    log = open(os.path.join(workdir, "tlc.log")).read()
+    m = re.search(r'<<"TRACES-CHECKED", (\d+), "rejected", (\d+)>>', log)
+    rejected = re.findall(r'<<"TRACE-REJECTED", (\d+), (\d+), "([^"]*)", "(.*)">>', log)
+    return r, (int(m.group(1)), int(m.group(2))) if m else None, rejected
